@@ -25,6 +25,11 @@ def instances(tier):
     yield 'beyond-space', dict(BASE, addr_bits=5, max_len=2 if tier == 'quick' else 3, win_start=27, win_end=38, fill=170), 'AlphaC03', None
     yield 'beyond-global', dict(BASE, addr_bits=16, max_len=2 if tier == 'quick' else 3, win_start=10, win_end=25, fill=0, origin=4,
                                 pre_zones_op='ZonesB', pre_zones=[('GLOBAL', 4, 15), ('z1', 6, 9), ('z2', 14, 17)]), 'AlphaC03', None
+    # no end given and no predefined data: the image ends at the highest address that received a byte - a zero-length line above a gap
+    # (an origin followed by an empty fill) has an address but no byte
+    for s0 in (0, 1):
+        yield f'auto-end-nodata-{s0}', dict({'addr_bits': 16, 'origin': 0, 'page_size': 4, 'pre_zones_op': 'ZonesA', 'pre_zones': [('z1', 8, 11), ('z2', 10, 13)]},
+                                           max_len=3 if tier == 'quick' else 4, win_start=s0, win_end=None, fill=170), 'AlphaC03', None
     # lines of more than 16 bytes, at every console verbosity (what is printed must not change what is written)
     for v in (0, 1, 2, 3):
         yield f'long-verbosity{v}', dict({'addr_bits': 16, 'origin': 0, 'page_size': 4}, max_len=3 if tier == 'quick' else 4, win_start=2, win_end=None if v % 2 else 70, fill=170, verbose=v), 'AlphaC03long', None
